@@ -1726,6 +1726,13 @@ impl IdmServerProxyReadTransaction<'_> {
                 e
             })?;
 
+        // The requester (e.g. a RADIUS server) may not be able to read the validity attributes
+        // of the account. The window is enforced from the stored entry regardless.
+        let account = self
+            .qs_read
+            .internal_search_uuid(rate.target)
+            .map(|entry| account.with_validity_of(&entry))?;
+
         account.to_radiusauthtoken(ct)
     }
 
